@@ -245,7 +245,27 @@ func ruleLDR2(c *Ctx) {
 				call, isCall := v.(*ssa.Call)
 				return isCall && matchStatic(hasErr)(call)
 			})
-			return okc && kind == "bool" && si == 1-sTrue
+			if okc && kind == "bool" && si == 1-sTrue {
+				return true
+			}
+			// the same test spelled out: len(reporter.Errors) > 0
+			if bo, isBo := iff.Cond.(*ssa.BinOp); isBo {
+				if lc, isCall := bo.X.(*ssa.Call); isCall {
+					if bi, isB := lc.Call.Value.(*ssa.Builtin); isB && bi.Name() == "len" {
+						if f, _ := fieldLoad(lc.Call.Args[0]); f != nil && f == p.Field("pkg", "GruleErrorReporter", "Errors") {
+							if k, okk := constInt(bo.Y); okk {
+								switch {
+								case bo.Op == token.GTR && k == 0, bo.Op == token.NEQ && k == 0, bo.Op == token.GEQ && k == 1:
+									return si == 1
+								case bo.Op == token.EQL && k == 0, bo.Op == token.LSS && k == 1:
+									return si == 0
+								}
+							}
+						}
+					}
+				}
+			}
+			return false
 		})
 		if !dom {
 			ok, why = false, "the nil return at "+p.InstrPos(ret)+" is reachable without passing the `no error recorded` edge of HasError() evaluated after the walk"
